@@ -353,6 +353,12 @@ def check_flags(ctx, case):
         got = ff.Basis(base).iscomplete
         if bool(got) != (k == d*d):
             probs.append(('iscomplete', bool(got), k))
+        # the same set with elements of very different norms (completeness is a property of the span)
+        sc = 10.0**rng.uniform(-9, 0, k)
+        sc[int(rng.integers(0, k))] = 1.0
+        got = ff.Basis(base*sc[:, None, None]).iscomplete
+        if bool(got) != (k == d*d):
+            probs.append(('iscomplete of a set with norms between %.1g and 1' % sc.min(), bool(got), k))
     ctx.count(('flag', what, d, case['seed']))
     if probs:
         ctx.fail('flags_truthful', case, probs, 'truthful flags', {'kind': probs[0][0]},
